@@ -590,7 +590,10 @@ impl<C: Codec> Ctx<C> {
             let _ = std::fs::create_dir_all(&dir);
             let safe: String = v.check.chars().map(|c| if c.is_ascii_alphanumeric() { c } else { '_' }).collect();
             let path = format!("{}/{}-{:016x}.json", dir, safe, hash_str(&v.case));
-            let _ = std::fs::write(&path, body.render());
+            // a saved replay that fails again is reported, not rewritten
+            if !std::path::Path::new(&path).exists() {
+                let _ = std::fs::write(&path, body.render());
+            }
             replay_paths.push(path);
         }
         let known_lines: Vec<String> = self
